@@ -247,6 +247,35 @@ fn eq_event(rng: &mut Rng) -> Option<J> {
                 "da": dump_value(&va).ok()?, "db": dump_value(&vb).ok()?}))
 }
 
+/// equality of a DOM value with a Rust primitive (C19: "agrees with comparison of primitives")
+fn eqprim_event(rng: &mut Rng) -> Option<J> {
+    #[derive(Clone, Debug)]
+    enum P { I(i64), U(u64), F(f64), B(bool), S(String) }
+    fn gen(rng: &mut Rng, kind: usize) -> P {
+        match kind { 0 => P::I(if rng.chance(1, 3) { rng.below(5) as i64 - 2 } else { Arb::arb(rng) }), 1 => P::U(if rng.chance(1, 3) { rng.below(4) as u64 } else { Arb::arb(rng) }),
+                     2 => P::F(if rng.chance(1, 3) { (rng.below(9) as f64 - 4.0) / 2.0 } else { Arb::arb(rng) }), 3 => P::B(Arb::arb(rng)),
+                     _ => P::S(if rng.chance(1, 3) { rng.pick(&["", "a", "1", "true", "null"]).to_string() } else { Arb::arb(rng) }) }
+    }
+    fn text(p: &P) -> String { match p { P::I(x) => sonic_rs::to_string(x), P::U(x) => sonic_rs::to_string(x), P::F(x) => sonic_rs::to_string(x), P::B(x) => sonic_rs::to_string(x), P::S(x) => sonic_rs::to_string(x) }.unwrap_or_default() }
+    fn tv(p: &P) -> Option<sonic_rs::Value> { match p { P::I(x) => sonic_rs::to_value(x), P::U(x) => sonic_rs::to_value(x), P::F(x) => sonic_rs::to_value(x), P::B(x) => sonic_rs::to_value(x), P::S(x) => sonic_rs::to_value(x) }.ok() }
+    // (v == p, p == v) for the Rust primitive inside p
+    fn cmp(v: &sonic_rs::Value, p: &P) -> (bool, bool) { match p { P::I(x) => (*v == *x, *x == *v), P::U(x) => (*v == *x, *x == *v), P::F(x) => (*v == *x, *x == *v), P::B(x) => (*v == *x, *x == *v), P::S(x) => (*v == *x && *v == x.as_str(), *x == *v && x.as_str() == *v) } }
+    fn peq(a: &P, b: &P) -> bool { match (a, b) { (P::I(x), P::I(y)) => x == y, (P::U(x), P::U(y)) => x == y, (P::F(x), P::F(y)) => x == y, (P::B(x), P::B(y)) => x == y, (P::S(x), P::S(y)) => x == y, _ => false } }
+    let kinds = ["i64", "u64", "f64", "bool", "str"];
+    let k = rng.below(5);
+    let p = gen(rng, k);
+    let q = if rng.chance(1, 4) { p.clone() } else { gen(rng, k) };
+    let rk = if rng.chance(1, 2) { k } else { rng.below(5) };
+    let r = if rng.chance(1, 3) && rk == k { p.clone() } else { gen(rng, rk) };
+    let (pt, rt) = (text(&p), text(&r));
+    let v1 = tv(&p)?;
+    let v2: sonic_rs::Value = sonic_rs::from_str(&pt).ok()?;
+    let v3: sonic_rs::Value = sonic_rs::from_str(&rt).ok()?;
+    let res = catch(|| { let (a1, a2) = cmp(&v1, &p); let (b1, b2) = cmp(&v2, &p); let (c, _) = cmp(&v1, &q); let (d1, d2) = cmp(&v3, &p); json!({"a1":a1,"a2":a2,"b1":b1,"b2":b2,"c":c,"pq":peq(&p, &q),"d1":d1,"d2":d2}) });
+    Some(match res { Ok(r) => json!({"ev":"eqprim","kind":kinds[k],"rkind":kinds[rk],"ptext":bytes_j(pt.as_bytes()),"rtext":bytes_j(rt.as_bytes()),"r":r,"panic":false}),
+                     Err(m) => json!({"ev":"eqprim","kind":kinds[k],"rkind":kinds[rk],"ptext":bytes_j(pt.as_bytes()),"rtext":bytes_j(rt.as_bytes()),"panic":true,"msg":m}) })
+}
+
 /// one (type, text) pair: prints the differential record
 pub fn probe(args: &[String]) -> i32 {
     let name = arg(args, "--ty").expect("--ty");
@@ -272,7 +301,8 @@ pub fn record(args: &[String]) -> i32 {
     for i in 0..n {
         let e = &reg[(i as usize) % reg.len()];
         let ev = if mode == "eq" {
-            match eq_event(&mut rng) { Some(e) => e, None => continue }
+            if i % 3 == 2 { match eqprim_event(&mut rng) { Some(e) => e, None => continue } } else {
+            match eq_event(&mut rng) { Some(e) => e, None => continue } }
         } else if mode == "conv" {
             let Some(c) = e.conv else { continue };
             inflight.set(i, e.name.as_bytes());
